@@ -52,6 +52,15 @@ REVERTS = [
 ]
 
 
+# Changes under which the property still HOLDS (other ways of writing the same daemon loop / the same helper invocation):
+# every check named here must stay quiet on them.  /verif/legit/<name>/patch.diff
+LEGIT = {
+    "iterate-stdin": ["C14"], "bytes-readline": ["C14"], "os-read-blocks": ["C14"], "asyncio-streamreader": ["C14"],
+    "worker-thread-queue": ["C14"], "executor-awaited": ["C14"],
+    "helper-subprocess-run": ["C10", "C11", "C14"], "helper-timeout-5s": ["C10", "C11", "C14"], "helper-poll-loop": ["C10", "C11", "C14"],
+}
+
+
 def log(*a):
     print(*a, flush=True)
 
@@ -74,6 +83,11 @@ def mutants():
         with open(meta) as f:
             m = json.load(f)
         out.append({"name": "seeded/" + os.path.basename(d), "property": m["property"], "kind": "patch", "patch": os.path.join(d, "patch.diff")})
+    for name, props in sorted(LEGIT.items()):
+        pth = os.path.join(VERIF, "legit", name, "patch.diff")
+        if os.path.exists(pth):
+            for prop in props:
+                out.append({"name": "legit/%s@%s" % (name, prop), "property": prop, "kind": "patch", "patch": pth, "expect": "quiet"})
     return out
 
 
@@ -126,7 +140,8 @@ def run_one(m, tier, with_tests):
             if not ok:
                 rec.update(status="tests-fail", detail=tail)
                 return rec
-        env = dict(os.environ, PYTRAPIC_REPO=d, PYTRAPIC_REPO_SRC=os.path.join(d, "src"), VERIF_CONFORMANCE="0", VERIF_EARLY_STOP="1",
+        env = dict(os.environ, PYTRAPIC_REPO=d, PYTRAPIC_REPO_SRC=os.path.join(d, "src"), VERIF_CONFORMANCE="0",
+                   VERIF_EARLY_STOP="0" if m.get("expect") == "quiet" else "1",
                    VERIF_EVIDENCE_DIR=os.path.join(d, "evidence"), VERIF_REPLAY_DIR=os.path.join(d, "replays"))
         r = subprocess.run([os.path.join(VERIF, "check"), m["property"], "--tier", tier], env=env, capture_output=True, text=True)
         out = r.stdout
@@ -134,9 +149,12 @@ def run_one(m, tier, with_tests):
         rec.update(exit=r.returncode, caught=(r.returncode == 1 and "VIOLATION property=%s" % m["property"] in out),
                    classes=sorted(set(c for c, _, _ in classes)), first=(classes[0][2][:200] if classes else ""),
                    wall_s=round(time.monotonic() - t0, 1))
-        rec["status"] = "caught" if rec["caught"] else ("harness-error" if r.returncode == 2 else "MISSED")
-        if rec["status"] != "caught":
-            rec["tail"] = out[-600:]
+        if m.get("expect") == "quiet":
+            rec["status"] = "quiet-ok" if r.returncode == 0 else ("harness-error" if r.returncode == 2 else "FALSE-ALARM")
+        else:
+            rec["status"] = "caught" if rec["caught"] else ("harness-error" if r.returncode == 2 else "MISSED")
+        if rec["status"] not in ("caught", "quiet-ok"):
+            rec["tail"] = out[-900:]
         return rec
     finally:
         shutil.rmtree(d, ignore_errors=True)
@@ -183,7 +201,8 @@ def main(names, tier):
     with open(os.path.join(outdir, name), "w") as f:
         json.dump(results, f, indent=1)
     n_c = sum(1 for r in results if r["status"] == "caught")
-    log("sensitivity: %d of %d mutants caught; %d missed; %d other" % (
-        n_c, len(results), sum(1 for r in results if r["status"] == "MISSED"),
-        sum(1 for r in results if r["status"] not in ("caught", "MISSED"))))
+    log("sensitivity: %d caught, %d MISSED; legitimate rewrites: %d quiet, %d FALSE-ALARM; %d other" % (
+        n_c, sum(1 for r in results if r["status"] == "MISSED"), sum(1 for r in results if r["status"] == "quiet-ok"),
+        sum(1 for r in results if r["status"] == "FALSE-ALARM"),
+        sum(1 for r in results if r["status"] not in ("caught", "MISSED", "quiet-ok", "FALSE-ALARM"))))
     return 0
